@@ -18,7 +18,8 @@ RULE = ("values with 0..3 placeholders mixed with literals, wildcards and escape
         "regular-expression position under expand combined with contains/startswith/endswith/all/cased; x pipelines of 0..3 "
         "placeholder items (value list, wildcard, query expression; include/exclude lists) in any order; x variable tables "
         "of 0..3 values (strings incl. wildcards, numbers, wrong types, missing); distinct = distinct (rule, pipeline); "
-        "non-trivial = at least one placeholder")
+        "non-trivial = at least one placeholder"
+        "; 20% of the cases convert twice through the same objects with the variable table changed in between")
 ASSUMPTIONS = [
     "placeholders inside regular expressions are only checked for 'conversion fails when unresolved'; their replacement is not modelled",
     "query expressions are compared as (field, expression template, identifier) atoms",
